@@ -113,18 +113,19 @@ vars == <<tb, place, k, out>>
 
 TheMovie ==
   LET trks == IF place = "inter" THEN <<Track("avc", <<3, 232>>, tb), Other>> ELSE <<Track("avc", <<3, 232>>, tb)>>
-      ord  == CASE place \in {"asc", "eof"} -> AscOrder(trks) [] place = "rev" -> Rev(AscOrder(trks))
+      ord  == CASE place \in {"asc", "eof", "large"} -> AscOrder(trks) [] place = "rev" -> Rev(AscOrder(trks))
                 [] place = "inter" -> InterOrder(trks)
   IN [mts |-> <<3, 232>>, tracks |-> trks, order |-> ord, extra |-> <<>>]
 
 Init == /\ tb \in AllTables
-        /\ place \in {"asc", "rev", "inter", "eof"}    \* "eof": the media data box is last and extends to the end of the file (size field 0)
+        /\ place \in {"asc", "rev", "inter", "eof", "large"}    \* "large": the media data box has a 64-bit size header    \* "eof": the media data box is last and extends to the end of the file (size field 0)
         /\ k = 0 /\ out = <<>>
 
 \* one reader call; the file is immutable
 Step == /\ k <= N(tb) + 2
         /\ k' = k + 1
-        /\ out' = IF k = N(tb) + 2 THEN RenderPlain(TheMovie, IF place = "eof" THEN <<[op |-> "eof", path |-> <<3>>]>> ELSE <<>>) ELSE out
+        /\ out' = IF k = N(tb) + 2 THEN RenderPlain(TheMovie, CASE place = "eof" -> <<[op |-> "eof", path |-> <<3>>]>>
+                                                                       [] place = "large" -> <<[op |-> "large", path |-> <<3>>]>> [] OTHER -> <<>>) ELSE out
         /\ UNCHANGED <<tb, place>>
 Next == Step
 Spec == Init /\ [][Next]_vars
